@@ -67,7 +67,8 @@ impl Block {
             .binary_search_by(|line_change: &LineChange| {
                 if Self::intersects_with_line_change(&self.content_position_range, line_change) {
                     Ordering::Equal
-                } else if line_change.line < self.content_position_range.start.line {
+                } else if line_change.line <= self.content_position_range.start.line {
+                    // A change on the first line that does not intersect lies before the content.
                     Ordering::Less
                 } else {
                     Ordering::Greater
@@ -87,7 +88,8 @@ impl Block {
                     line_change,
                 ) {
                     Ordering::Equal
-                } else if line_change.line < self.start_tag_position_range.start().line {
+                } else if line_change.line <= self.start_tag_position_range.start().line {
+                    // A change on the first line that does not intersect lies before the tag.
                     Ordering::Less
                 } else {
                     Ordering::Greater
